@@ -323,7 +323,7 @@ class SimNet:
     """m MPyC parties in one process."""
 
     def __init__(self, m, t=None, no_prss=False, seed=0, sched=None, max_steps=2_000_000,
-                 sec_param=None, mix32_64bit=False, no_barrier=False, bit_length=None):
+                 sec_param=None, mix32_64bit=False, no_barrier=False, bit_length=None, t_initial=None):
         self.m = m
         self.t = (m - 1) // 2 if t is None else t
         assert 2 * self.t < m
@@ -369,7 +369,7 @@ class SimNet:
             ctx.run(CUR.set, i)
             self.ctx.append(ctx)
             opts = mpyc._get_arg_parser().parse_args([])
-            opts.threshold = self.t
+            opts.threshold = self.t if t_initial is None else t_initial
             opts.no_prss = no_prss
             opts.no_async = False
             opts.no_barrier = no_barrier
@@ -384,13 +384,49 @@ class SimNet:
             rt = ctx.run(rtmod.Runtime, i, parties, opts)
             RTS[i] = rt
             self.rts.append(rt)
+        self.token_start = 0
+        if t_initial is not None:
+            self.token_start = len(SECRETS.log) if SECRETS.log is not None else 0
+            # the program assigns mpc.threshold after the runtime was created and before mpc.start()
+            # (as demos/parallelsort.py does)
+            for i in range(m):
+                self.ctx[i].run(setattr, self.rts[i], 'threshold', self.t)
         self.loop.set_exception_handler(self._exc_handler)
+
+    def new_session(self):
+        """Prepare a second run with the SAME Runtime objects (mpc.shutdown() ... mpc.start() in one process)."""
+        self.steps = 0
+        self.quiescent = False
+        self.budget_exceeded = False
+        self.errors = []
+        self.stopped = set()
+        self.queues = [collections.deque() for _ in range(self.m)]
+        self.chan, self.protos, self.transports = {}, {}, {}
+        self.wire = collections.defaultdict(bytearray)
+        _install_proxy()
+        for i in range(self.m):
+            RTS[i] = self.rts[i]
+        self.loop = SimLoop(self)
+        self.loop.set_debug(False)
+        asyncio.set_event_loop(self.loop)
+        for rt in self.rts:
+            rt._loop = self.loop
+        self.loop.set_exception_handler(self._exc_handler)
+
+    def set_threshold(self, t):
+        """mpc.threshold = t at every party (between two sessions)"""
+        self.t = t
+        for i in range(self.m):
+            self.ctx[i].run(setattr, self.rts[i], 'threshold', t)
 
     # -- plumbing -------------------------------------------------------------------------
     def _exc_handler(self, loop, context):
         exc = context.get('exception')
         msg = context.get('message', '')
         if 'was never retrieved' in msg and exc is None:
+            return
+        if exc is not None and isinstance(exc, getattr(self, 'expected_exc', ())):
+            self.swallowed = getattr(self, 'swallowed', 0) + 1   # a fault the program injects on purpose
             return
         self.errors.append((CUR.get(), msg, exc))
 
